@@ -566,11 +566,14 @@ class MyPyAstVisitor:
                     ),
                 )
         else:
+            # Every entry of the docstring can only describe one of the results
+            matched_docstrings: list[ResultDocstring] = []
             for type_ in return_results:
                 result_docstring = ResultDocstring()
                 for docstring in result_docstrings:
-                    if hash(docstring.type) == hash(type_):
+                    if hash(docstring.type) == hash(type_) and not any(docstring is matched for matched in matched_docstrings):
                         result_docstring = docstring
+                        matched_docstrings.append(docstring)
                         break
 
                 result_name = result_docstring.name or next(name_generator)
